@@ -812,6 +812,9 @@ func runJob(job atpcs.Job) (res atpcs.JobResult) {
 			srv.mu.Lock()
 			srv.mark = o.N
 			srv.mu.Unlock()
+		case "awaitws":
+			r := o.R
+			srv.waitFor(func() bool { return srv.ws[r] })
 		case "await":
 			n := o.N
 			srv.waitFor(func() bool { return srv.nMsgs >= n })
